@@ -51,7 +51,7 @@ def cases(tier, seed):
             if state == "missing" and not ai:
                 fails = ["incomplete"]
             if state == "complete":
-                fails += ["garbage"]
+                fails += ["garbage", "overlong"]
                 if scn == "runner" or scn.startswith("harv"):
                     # (DataFrame output does not validate the description)
                     fails.append("wrongdesc")
@@ -200,11 +200,22 @@ def check_case(case):
                             "retry after growing the missing batch raised %r"
                             % e2))
         return fin(case, vio, "incomplete")
-    # ------------------------------------------------------------- garbage
-    if fl == "garbage":
-        rf = [k for k in env.base if "results" + os.sep in k][0]
-        with open(os.path.join(d, rf), "wb") as fh:
-            fh.write(b"\x80\x04garbage")
+    # ----------------------------------------------------- garbage / overlong
+    if fl in ("garbage", "overlong"):
+        rfs = sorted(k for k in env.base if "results" + os.sep in k)
+        if fl == "garbage":
+            with open(os.path.join(d, rfs[0]), "wb") as fh:
+                fh.write(b"\x80\x04garbage")
+        else:
+            # a readable result holding more entries than its batch (what
+            # check_bad exists for): noticed only after everything was read
+            import pickle
+
+            p_ = os.path.join(d, rfs[-1])
+            with open(p_, "rb") as fh:
+                good = pickle.load(fh)
+            with open(p_, "wb") as fh:
+                pickle.dump(tuple(good) + tuple(good[-1:]), fh)
         pre = crop_tree(d)
         try:
             res = env.reap()
@@ -218,17 +229,17 @@ def check_case(case):
             else:
                 vio.append((key("garbage-result"), "reap returned %s" % j))
         except Exception as e:
-            after_raise(pre, e, "garbage")
-            c = sc.fresh_crop(d)
-            with core.Silence():
-                c.check_bad()
-            c.grow_missing(verbosity=0)
+            after_raise(pre, e, fl)
             try:
+                c = sc.fresh_crop(d)
+                with core.Silence():
+                    c.check_bad()
+                c.grow_missing(verbosity=0)
                 after_success(env.reap(), True, "retry")
             except Exception as e2:
                 vio.append((key("retry-raised:" + type(e2).__name__),
                             "retry after regrowing raised %r" % e2))
-        return fin(case, vio, "garbage")
+        return fin(case, vio, fl)
     # ----------------------------------------------------------- wrongdesc
     if fl == "wrongdesc":
         crop = sc.fresh_crop(d)
@@ -311,13 +322,25 @@ def check_case(case):
                 if s2.faulted is None:
                     raise core.HarnessError(
                         "fault position %d not reached in %r" % (k, case))
-                # the error was swallowed: the outcome must still be right
+                # the error was swallowed: the outcome must still be right,
+                # including what was delivered to disk
                 j = env.judge(res)
                 if j != "exact" and not (j == "partial"
                                          and case["state"] == "missing"):
                     vio.append((key("fault-swallowed"),
                                 "OSError at op %d %r was swallowed and reap "
                                 "returned %s" % (k, t[:2], j)))
+                if case["state"] == "complete" and sc.kind in (
+                        "harvester", "sampler"):
+                    dj = sc.judge_data(d, env.earlier_rows)
+                    if dj:
+                        vio.append((key("fault-swallowed-data:" + dj),
+                                    "OSError at op %d %r was swallowed: reap "
+                                    "returned normally but the data file is: "
+                                    "%s (crop directory %s)" % (
+                                        k, t[:2], dj, "kept" if os.path.exists(
+                                            os.path.join(d, CROPDIR))
+                                        else "deleted")))
                 continue
             except core.HarnessError:
                 raise
